@@ -90,6 +90,8 @@ Definition binop (op : bop) (a b : operand) : res ival :=
   | OInt s, OArr l => in_ op s (false, l)
   | ONum c, OInt o => ni op (true, [c]) o
   | OArr l, OInt o => ni op (false, l) o
+  | OOther, OInt o =>   (* __rtruediv__ tests the divisor before the operand type *)
+      match op with Div => if existsb straddles0 (snd o) then Raise ZeroDivision else NotImpl | _ => NotImpl end
   | _, _ => NotImpl
   end.
 
